@@ -3,6 +3,7 @@ import IvpModel.Driver.SolOutDrv
 import IvpModel.Driver.SolveDrv
 import IvpModel.Driver.LuDrv
 import IvpModel.Driver.PyDrv
+import IvpModel.Driver.RadauDrv
 
 def main (args : List String) : IO UInt32 := do
   let stdin ← IO.getStdin
@@ -13,6 +14,9 @@ def main (args : List String) : IO UInt32 := do
       return 0
   | ["lu"] =>
       for o in Drv.Lu.run lines do IO.println o
+      return 0
+  | ["radau"] =>
+      for o in Drv.Radau.run lines do IO.println o
       return 0
   | ["py"] =>
       for o in Drv.PyDrv.run lines do IO.println o
